@@ -321,6 +321,32 @@ CLAIMED['C16'] = dict(
         design_ref="DESIGN.md 5 C16",
     )
 
+CLAIMED['C01'] = dict(
+    technique="Coq proof (invariant by induction over operation histories + refinement to the from-scratch "
+              "specification) over a hand-transcribed machine model of ExcelCompiler's lazy cache, tied to the "
+              "code by differential runs on generated workbooks x histories x configurations",
+    text="coq/Model/Graph.v transcribes set_value/_reset, _evaluate/_evaluate_range and the lazy graph construction "
+         "(built set, stored results, eager range evaluation) of excelcompiler.py as a state machine over DAG "
+         "workbooks; formula meaning is an arbitrary function of the precedents' values. Proved for EVERY well-formed "
+         "workbook, EVERY such meaning and EVERY finite history of Build/Evaluate/SetValue: the invariant (coherence: "
+         "a cached value is the from-scratch value under the current inputs; closure: an empty formula node has only "
+         "empty dependants — what makes _reset's early return sound; built set closed under precedents) is preserved "
+         "(C01_invariant), hence every evaluate returns exactly the from-scratch value (C01_coherent_partial, "
+         "C01_coherent_pointwise_partial; specialisations C01_coherent_nodata_partial for no-data/loaded models with "
+         "no condition on build order and C01_coherent_stored_partial for consistent stored results), for every "
+         "scalar written incl. blank and 0/FALSE, 1/TRUE (after the two set_value repairs e0ad119, 761df50 in /repo). "
+         "'_partial' because three side conditions remain, each refuted without it by a vm_compute witness that "
+         "replays on the implementation (known findings): no formula evaluates to blank (sem_nonblank), with stored "
+         "results no dependant is first built after an upstream write (late_ok), and stored results are not partial "
+         "(clause S2 of stored_ok — found by the proof, then reproduced on the implementation). 8 theorems closed "
+         "under the global context. Correspondence: ~1400 generated workbooks x 8-14 operations per quick run in 12 "
+         "streams (clean, loaded from yml/json/pkl, xlsx with injected stored results, blank writes, equal-but-other-"
+         "type writes, blank formula results, late builds, partial stored results): returned values, the whole cache "
+         "snapshot and the built set are compared with the extracted machine after every operation, and every "
+         "evaluate is compared with a from-scratch compile.",
+    design_ref="DESIGN.md 5 C01",
+)
+
 NOT_YET = "check not built yet in this round (planned: DESIGN.md section 7 lists the build order)"
 
 
